@@ -162,7 +162,12 @@ def behaviour(paths, codec, options, cache_dir, seed, keep=None,
         keep.append(spec)
 
     if probes is None:
-        probes = make_probes(paths, codec, options, seed)
+        try:
+            probes = make_probes(paths, codec, options, seed)
+        except Exception:
+            # The files do not even parse - yet a Specification came back.
+            return {'outcome': 'ok', 'digest': 'no-probes-files-do-not-parse',
+                    'lines': []}
 
     try:
         lines = probes.apply(spec)
@@ -435,6 +440,13 @@ class C17(Engine):
         split = [[files[0][0], ''.join(t for _, t in files) + TRAILER_HEAD],
                  ['tail.asn', TRAILER_TAIL]]
         variants += [joined, split]
+        # ... the same files in another order, where the order matters: the
+        # split module read tail first (does not parse), and one module
+        # defined twice (the last definition wins).
+        second = samesize_variant(files, 3)[0]
+        variants += [list(reversed(split)),
+                     [files[0], ['zz-again.asn', second[1]]] + files[1:],
+                     [['zz-again.asn', second[1]], files[0]] + files[1:]]
         ops_rng = random.Random(mix(run_seed, 'ops'))
         faults = random.Random(mix(run_seed, 'faults'))
         ops = []
@@ -493,7 +505,18 @@ class C17(Engine):
             if roll < 0.13:
                 current = ops_rng.randrange(len(variants))
                 ops.append({'op': 'edit', 'variant': current})
-            elif roll < 0.21:
+            elif roll < 0.17 and len(variants) >= 12:
+                # The same files given in another order, where the order
+                # matters (split module / module defined twice): compiled
+                # with the same arguments before and after.
+                args = compile_args()
+                a, b = ops_rng.choice([(8, 9), (9, 8), (10, 11), (11, 10)])
+                ops.append({'op': 'edit', 'variant': a})
+                ops.append(dict(args, op='compile'))
+                ops.append({'op': 'edit', 'variant': b})
+                ops.append(dict(args, op='compile'))
+                current = b
+            elif roll < 0.25:
                 # A concurrent editor: the sources are rewritten while a
                 # compile is running (at Python tick n of it), then - most
                 # of the time - put back and compiled again.
